@@ -694,12 +694,16 @@ class Interp:
 
     def _assigned_in(self, stmts: list[ast.stmt]) -> set[str]:
         out: set[str] = set()
-        for stmt in stmts:
-            for sub in ast.walk(stmt):
-                if isinstance(sub, ast.Name) and isinstance(sub.ctx, (ast.Store, ast.Del)):
-                    out.add(sub.id)
-                elif isinstance(sub, (ast.FunctionDef, ast.ClassDef)):
-                    out.add(sub.name)
+        todo: list[ast.AST] = list(stmts)
+        while todo:
+            sub = todo.pop()
+            if isinstance(sub, ast.Name) and isinstance(sub.ctx, (ast.Store, ast.Del)):
+                out.add(sub.id)
+            elif isinstance(sub, (ast.FunctionDef, ast.ClassDef)):
+                out.add(sub.name)
+            if isinstance(sub, (ast.ListComp, ast.SetComp, ast.DictComp, ast.GeneratorExp, ast.Lambda)):
+                continue  # their variables live in a scope of their own
+            todo.extend(ast.iter_child_nodes(sub))
         return out
 
     def _bind_target(self, target: ast.expr, st: State, origin: Optional[str]) -> None:
